@@ -179,8 +179,26 @@ def positional(ctx, crate):
                 if idx[0] == "field" and idx[2][0] == "downcast" and idx[2][1] == "Ok" and idx[2][2][0] == "call" \
                         and last_seg(idx[2][2][1]) == "parse":
                     ok = True
+        def parsed(idx):
+            return idx[0] == "field" and idx[2][0] == "downcast" and idx[2][1] == "Ok" and idx[2][2][0] == "call" \
+                and last_seg(idx[2][2][1]) == "parse"
+        for bb, t, c in b.calls():
+            # `args.get(N)`: the checked form of the same read
+            if last_seg(c) == "get" and ("slice" in c or "[T]" in c or "Vec" in c) and len(b.call_args(bb)) == 2:
+                if parsed(b.expand_vars(strip_sites(b.call_args(bb)[1]))):
+                    ok = True
         ctx.ob("R15-2", b.path, "`$N` reads args[N] with N exactly the parsed number", ok,
                key="R15-2|%s|index" % b.path, crate=crate.kind)
+
+
+def _is_flag_test(b, atom):
+    """a branch on sh.exit_on_error, or on a bool one of whose definitions is that field (`let stop = failed &&
+    sh.exit_on_error; if stop`, or a helper returning it)"""
+    if flow.is_field_named(mir.peel(atom), "exit_on_error"):
+        return True
+    a = strip_sites(atom)
+    return a[0] == "var" and b.locals[a[1]]["ty"] == "bool" and any(
+        flow.is_field_named(mir.peel(e), "exit_on_error") for e in mir.bool_sources(b, a[1]))
 
 
 def exit_on_error(ctx, crate):
@@ -201,7 +219,7 @@ def exit_on_error(ctx, crate):
     tests = set()
     for bb in blocks:
         for tgt, atom, val in b.switch_edges(bb):
-            if flow.is_field_named(mir.peel(atom), "exit_on_error"):
+            if _is_flag_test(b, atom):
                 tests.add(bb)
     k = 0
     for rb in runs:
@@ -210,7 +228,7 @@ def exit_on_error(ctx, crate):
         leaves = False
         for tb in tests:
             for tgt, atom, val in b.switch_edges(tb):
-                if val is True and flow.is_field_named(mir.peel(atom), "exit_on_error"):
+                if val is True and _is_flag_test(b, atom):
                     reach = flow.blocks_between(b, tgt, {h})
                     if any(b.term(x)["k"] == "return" for x in reach) and h not in reach:
                         leaves = True
@@ -220,6 +238,10 @@ def exit_on_error(ctx, crate):
             for bb in blocks:
                 for tgt, atom, val in b.switch_edges(bb):
                     if atom[0] == "bin" and atom[1] in ("Ne", "Eq") and const_int(atom[3]) == 0:
+                        st_tests.add(bb)
+                    # `let failed = ..status != 0; if failed && sh.exit_on_error`
+                    if atom[0] == "var" and b.locals[atom[1]]["ty"] == "bool" and any(
+                            e[0] == "bin" and e[1] in ("Ne", "Eq") and const_int(e[3]) == 0 for e in mir.bool_sources(b, atom[1])):
                         st_tests.add(bb)
                     # `if let Some(last) = cr_list.last()`: nothing ran, nothing to test
                     if atom[0] == "discr" and atom[1][0] == "call" and last_seg(atom[1][1]) == "last":
@@ -323,9 +345,15 @@ def func_args(ctx, crate):
     args = b.call_args(run[0])
     av = None
     for a in args:
-        r = mir.root_local_expr(b.expand_vars(strip_sites(a)))
-        if r is not None and "Vec<std::string::String>" in b.locals[r]["ty"]:
-            av = r
+        for e in (b.expand_vars(strip_sites(a)), strip_sites(a)):
+            r = mir.root_local_expr(e)
+            if av is None and r is not None and "Vec<std::string::String>" in b.locals[r]["ty"]:
+                av = r
+    if av is None:
+        for op in b.term(run[0])["args"]:
+            r = mir.raw_root_local(b, op, lambda ty: "Vec<std::string::String>" in ty)
+            if r is not None:
+                av = r
     if not ctx.require(av is not None, "R15-2", "R15-2|%s|args-vector" % b.path, "args vector not identified", b.path):
         return
     pushes = [bb for bb, t, c in b.calls() if last_seg(c) == "push" and "Vec" in c and b.call_args(bb) and
@@ -356,6 +384,16 @@ def func_args(ctx, crate):
                 src = b.expand_vars(strip_sites(b.call_args(bb)[1]))
                 calls = {last_seg(x[1]) for x in mir.subexprs(src) if x[0] == "call"}
                 if any(flow.is_field_named(x, "tokens") for x in mir.subexprs(src)) and not (calls & LOSSY):
+                    ok, detail = True, None
+        # `let args: Vec<String> = once(name).chain(command.tokens.iter().map(..)).collect()`
+        for bi, si in b.defs.get(av, []):
+            src = b.expand_vars(strip_sites(b.def_expr(bi, si)))
+            if src[0] == "call" and last_seg(src[1]) == "collect":
+                calls = [last_seg(x[1]) for x in mir.subexprs(src) if x[0] == "call"]
+                lossy = set(calls) & LOSSY
+                if lossy == {"chain"} and calls.count("chain") == 1 and "once" in calls:
+                    lossy = set()           # one leading element ($0) in front of the words
+                if any(flow.is_field_named(x, "tokens") for x in mir.subexprs(src)) and not lossy:
                     ok, detail = True, None
     ctx.ob("R15-2", b.path, "every word of the call is pushed as one positional argument", ok,
            key="R15-2|%s|all-words" % b.path, where=b.loc(run[0]), crate=crate.kind, detail=detail)
@@ -509,7 +547,9 @@ def always_runs_rule(ctx, crate):
         for x in sorted(f.reachable):
             for tgt, atom, val in f.switch_edges(x):
                 a = strip_sites(atom)
-                if a[0] == "discr" and val == "Some" and any(sub[0] == "call" and last_seg(sub[1]) in ("get_func", "get")
+                if a[0] == "discr" and (val == "Some" or (val == "Continue" and any(
+                        sub[0] == "call" and last_seg(sub[1]) == "branch" for sub in mir.subexprs(a)))) and \
+                        any(sub[0] == "call" and last_seg(sub[1]) in ("get_func", "get")
                                                               for sub in mir.subexprs(a)):
                     found.add(tgt)
         rets_f = {bb for bb in f.reachable if f.term(bb)["k"] == "return"}
